@@ -285,7 +285,9 @@ def gen_probh_cases(ck):
     rng = ck.rng
     n = 6 if ck.thorough else 1
     good = ["1,2,3\n4,5,6\n7,8,9\n", "y,a,b\n1,2,x\n3,4,z\n5,6,x\n", "1,2,,4\n5,6,,8\n", "u,1,2\nv,3,4\nu,5,6\n",
-            "1;2\n3;4\n", "1,ab,cd\n2,ef,gh\n3,ij,kl\n"]
+            "1;2\n3;4\n", "1,ab,cd\n2,ef,gh\n3,ij,kl\n",
+            # repeated column names, a name colliding with a default one, primitive names
+            "y,a,a,b\n1,2,3,4\n5,6,7,8\n", "y,,X1,c\n1,2,3,4\n5,6,7,8\n", "y,FADD,FADD\n1,2,3\n4,5,6\n"]
     bad = ["1,2\n3,x\n", "1\n2\n", "", "1,2,3\n4,5\n6\n", "1,2\n3,4,5,6\n", "1,,3\n4,5,6\n", "a,1\na,2\n", "1,2\n1e999,3\n"]
 
     def op_read():
